@@ -7,7 +7,8 @@
 
    Two versions of a function exist where the pinned tree was repaired: the current one
    (`strict = true` / `guard = true`) and the pinned-tree one (`false`), kept so that the
-   `_refuted` lemmas document the regression.
+   `_refuted` lemmas document the regression.  `run` (what the correspondence run evaluates and
+   what the theorems of Props/C04.v are about) is the CURRENT code.
 
    Flat reader = data.Chunk (the rd_ functions of Codec); stream reader = data.NewReader over an io.Reader that
    never returns short reads (bytes.Reader): the srd_ functions of Codec on the one-chunk source. *)
@@ -44,10 +45,12 @@ Definition alloc {X} (a : A X) : Z := snd a.
    strict = true : the repaired walker (length checks return io.ErrUnexpectedEOF)
    strict = false: the pinned tree (`_ = b[12]`, b[s], b[s+1], b[s:s+i] unchecked); the slice
                    passed in is taken to have cap = len.
+   alloc = the bytes handed to w.Write (copies of input bytes; counted here so that
+   "the output never exceeds the input" is part of the allocation theorem).
    ========================================================================================= *)
 
 (* inner label walk of the question loop:
-     for i := 0; i < 64; { if i >= len(b) || s > len(b) {EOF}; if i = int(b[s]); i == 0 {s++; break}; s += i+1 } *)
+     for i := 0; i < 64; { if i >= len(b) || s >= len(b) {EOF}; if i = int(b[s]); i == 0 {s++; break}; s += i+1 } *)
 Fixpoint dns_labels (strict : bool) (fuel : nat) (b : list Z) (i s : Z) : res Z :=
   if 64 <=? i then Ok s else
   match fuel with
@@ -67,7 +70,7 @@ Fixpoint dns_q (strict : bool) (q : nat) (b : list Z) (s : Z) : res Z :=
     if len b <=? s2 then Err ErrUnexpectedEOF else dns_q strict q' b s2
   end.
 
-(* answer records: if s += 10; s > len(b) {EOF}; s += (int(b[s])<<8 | int(b[s+1])) + 2 *)
+(* answer records: if s += 10; s+1 >= len(b) {EOF}; s += (int(b[s])<<8 | int(b[s+1])) + 2 *)
 Fixpoint dns_c (strict : bool) (c : nat) (b : list Z) (s : Z) : res Z :=
   match c with
   | O => Ok s
@@ -80,53 +83,50 @@ Fixpoint dns_c (strict : bool) (c : nat) (b : list Z) (s : Z) : res Z :=
   end.
 
 (* data records: C0 0C 00 0A 00 01 ttl(4) len(2) data; the data is written to w *)
-Fixpoint dns_t (strict : bool) (t : nat) (b : list Z) (s : Z) (acc : list Z) : res (Z * list Z) :=
+Fixpoint dns_t (strict : bool) (t : nat) (b : list Z) (s : Z) (acc : list Z) : A (Z * list Z) :=
   match t with
-  | O => Ok (s, acc)
+  | O => ret (s, acc)
   | S t' =>
-    if len b <=? s + 6 then Err ErrUnexpectedEOF else
-    do b0 <- idx b s; do b1 <- idx b (s + 1); do b2 <- idx b (s + 2);
-    do b3 <- idx b (s + 3); do b4 <- idx b (s + 4); do b5 <- idx b (s + 5);
+    if len b <=? s + 6 then lift (Err ErrUnexpectedEOF) else
+    al b0 <- lift (idx b s); al b1 <- lift (idx b (s + 1)); al b2 <- lift (idx b (s + 2));
+    al b3 <- lift (idx b (s + 3)); al b4 <- lift (idx b (s + 4)); al b5 <- lift (idx b (s + 5));
     if negb ((b0 =? 192) && (b1 =? 12) && (b2 =? 0) && (b3 =? 10) && (b4 =? 0) && (b5 =? 1))
-    then Err ENoProgress else
+    then lift (Err ENoProgress) else
     let s1 := s + 10 in
-    if strict && (len b <=? s1 + 1) then Err ErrUnexpectedEOF else
-    do hi <- idx b s1;
-    do lo <- idx b (s1 + 1);
+    if strict && (len b <=? s1 + 1) then lift (Err ErrUnexpectedEOF) else
+    al hi <- lift (idx b s1);
+    al lo <- lift (idx b (s1 + 1));
     let i := hi * 256 + lo in
     let s2 := s1 + 2 in
-    if strict && (len b <? s2 + i) then Err ErrUnexpectedEOF else
-    do d <- slice b s2 (s2 + i);
+    if strict && (len b <? s2 + i) then lift (Err ErrUnexpectedEOF) else
+    al d <- lift (slice b s2 (s2 + i));
+    al _ <- mk (len d);
     dns_t strict t' b (s2 + i) (acc ++ d)
   end.
 
-Definition dns_packet (strict : bool) (b : list Z) : res (Z * list Z) :=
-  if strict && (len b <? 13) then Err ErrUnexpectedEOF else
-  do _ <- idx b 12;
-  do q1 <- idx b 4; do q0 <- idx b 5;
-  do c1 <- idx b 6; do c0 <- idx b 7;
-  do t1 <- idx b 10; do t0 <- idx b 11;
-  do s1 <- dns_q strict (Z.to_nat (q1 * 256 + q0)) b 12;
-  do s2 <- dns_c strict (Z.to_nat (c1 * 256 + c0)) b s1;
+Definition dns_packet (strict : bool) (b : list Z) : A (Z * list Z) :=
+  al _ <- lift (if strict then (if len b <? 12 then Err ErrUnexpectedEOF else Ok 0) else idx b 12);
+  al q1 <- lift (idx b 4); al q0 <- lift (idx b 5);
+  al c1 <- lift (idx b 6); al c0 <- lift (idx b 7);
+  al t1 <- lift (idx b 10); al t0 <- lift (idx b 11);
+  al s1 <- lift (dns_q strict (Z.to_nat (q1 * 256 + q0)) b 12);
+  al s2 <- lift (dns_c strict (Z.to_nat (c1 * 256 + c0)) b s1);
   dns_t strict (Z.to_nat (t1 * 256 + t0)) b s2 [].
 
 (* decodePackets: for i < len(b) { n, err := decodePacket(w, b[i:]); i += n } *)
-Fixpoint dns_packets (strict : bool) (fuel : nat) (b : list Z) (i : Z) (acc : list Z) : res (Z * list Z) :=
-  if len b <=? i then Ok (i, acc) else
+Fixpoint dns_packets (strict : bool) (fuel : nat) (b : list Z) (i : Z) (acc : list Z) : A (Z * list Z) :=
+  if len b <=? i then ret (i, acc) else
   match fuel with
-  | O => Err EFuel
+  | O => lift (Err EFuel)
   | S f =>
-    match dns_packet strict (drop i b) with
-    | Ok (n, w) => dns_packets strict f b (i + n) (acc ++ w)
-    | Err e => Err e
-    | Panic => Panic
-    end
+    al '(n, w) <- dns_packet strict (drop i b);
+    dns_packets strict f b (i + n) (acc ++ w)
   end.
 
 (* DNSTransform.Read: the bytes written to w *)
-Definition dns_read (strict : bool) (b : list Z) : res (list Z) :=
-  do '(n, w) <- dns_packets strict (S (length b)) b 0 [];
-  if n =? len b then Ok w else Err ErrUnexpectedEOF.
+Definition dns_read (strict : bool) (b : list Z) : A (list Z) :=
+  al '(n, w) <- dns_packets strict (S (length b)) b 0 [];
+  if n =? len b then ret w else lift (Err ErrUnexpectedEOF).
 
 (* =========================================================================================
    2. data.ReadStringList (data/util.go) and Bytes (chunk_reader.go / data_reader.go)
@@ -141,12 +141,24 @@ Fixpoint rd_strings_n (fuel : nat) (k : Z) (s : list Z) : res (list (list Z) * l
   end.
 
 Definition SliceHdr : Z := 16.      (* unsafe.Sizeof(string) *)
-Definition StrListCap : Z := 64.    (* the repaired code starts with cap min(l, 64) and appends *)
+(* amortised cost of ONE append step of the repaired loop (the list grows by one empty string): growslice doubles below
+   256 elements, then grows by a quarter plus 192, rounded up to a size class (at most an eighth):
+   all the backing arrays allocated while a slice of 16-byte elements grows to m entries hold at
+   most 7*m + 70 elements, i.e. less than 112 bytes per entry plus 2 KiB. *)
+Definition StrGrow : Z := 112.
 
-(* guard = true : repaired (initial capacity capped, grows with the entries actually read);
+(* guard = true : repaired: the list grows by append with the entries that are actually read;
    guard = false: pinned tree, make([]string, l) from the unchecked count: makeslice panics when
    l*16 exceeds the address space, and allocates l*16 bytes otherwise.  A count that is negative
    as an int skips both the allocation and the loop. *)
+Fixpoint rd_strings_g (fuel : nat) (k : Z) (s : list Z) : A (list (list Z) * list Z) :=
+  if k <=? 0 then ret ([], s) else
+  match fuel with
+  | O => lift (Err EFuel)
+  | S f => al _ <- mk StrGrow; al '(b, r) <- lift (rd_bytes s);
+           al '(l, r') <- rd_strings_g f (k - 1) r; ret (b :: l, r')
+  end.
+
 Definition strlist_flat (guard : bool) (s : list Z) : A (list (list Z) * list Z) :=
   al '(ol, r) <- lift (rd_prefix s);
   match ol with
@@ -154,7 +166,7 @@ Definition strlist_flat (guard : bool) (s : list Z) : A (list (list Z) * list Z)
   | Some n =>
     let l := i64 n in
     if l <=? 0 then ret ([], r) else
-    if guard then al _ <- mk (Z.min l StrListCap * SliceHdr); lift (rd_strings_n (S (length r)) l r)
+    if guard then rd_strings_g (S (length r)) l r
     else if maxAlloc <? l * SliceHdr then (Panic, 0)
     else al _ <- mk (l * SliceHdr); lift (rd_strings_n (S (length r)) l r)
   end.
@@ -178,11 +190,12 @@ Definition bytes_stream (s : src) : A (list Z * src) :=
          end
   end.
 
-Fixpoint srd_strings_n (fuel : nat) (k : Z) (s : src) : A (list (list Z) * src) :=
+Fixpoint srd_strings_n (grow : bool) (fuel : nat) (k : Z) (s : src) : A (list (list Z) * src) :=
   if k <=? 0 then ret ([], s) else
   match fuel with
   | O => lift (Err EFuel)
-  | S f => al '(b, r) <- bytes_stream s; al '(l, r') <- srd_strings_n f (k - 1) r; ret (b :: l, r')
+  | S f => al _ <- mk (if grow then StrGrow else 0); al '(b, r) <- bytes_stream s;
+           al '(l, r') <- srd_strings_n grow f (k - 1) r; ret (b :: l, r')
   end.
 
 Definition strlist_stream (guard : bool) (s : src) : A (list (list Z) * src) :=
@@ -192,9 +205,9 @@ Definition strlist_stream (guard : bool) (s : src) : A (list (list Z) * src) :=
   | Some n =>
     let l := i64 n in
     if l <=? 0 then ret ([], r) else
-    if guard then al _ <- mk (Z.min l StrListCap * SliceHdr); srd_strings_n (S (length (concat r))) l r
+    if guard then srd_strings_n true (S (length (concat r))) l r
     else if maxAlloc <? l * SliceHdr then (Panic, 0)
-    else al _ <- mk (l * SliceHdr); srd_strings_n (S (length (concat r))) l r
+    else al _ <- mk (l * SliceHdr); srd_strings_n false (S (length (concat r))) l r
   end.
 
 (* =========================================================================================
@@ -309,10 +322,10 @@ Fixpoint rd_elems (fuel : nat) (c : Z) (fs : list field) (s : list Z) : res (uni
 
 (* the one combinator: read a cw-byte count, make(count * esz), decode the elements.
    guard = true : the repaired decoders refuse a count larger than the bytes that remain
-                  (every element takes at least one byte) with io.EOF before allocating;
+                  (every element takes at least one byte) with io.ErrUnexpectedEOF before allocating;
    guard = false: the pinned tree. *)
 Definition counted (guard : bool) (c : Z) (esz : Z) (fs : list field) (r : list Z) : A (list Z) :=
-  if guard && (len r <? c) then lift (Err EOF) else
+  if guard && (len r <? c) then lift (Err ErrUnexpectedEOF) else
   al _ <- mk (c * esz);
   al '(_, r') <- lift (rd_elems (S (length r)) c fs r);
   ret [c; len r'].
@@ -452,7 +465,7 @@ Definition on_ok {X} (a : A X) (f : X -> list Z) : A (list Z) := al x <- a; ret 
 (* the CURRENT code *)
 Definition run (d : dec) (s : list Z) : A (list Z) :=
   match d with
-  | DDns => lift (dns_read true s)
+  | DDns => dns_read true s
   | DStrListC => on_ok (strlist_flat true s) (fun x => strs_digest (fst x) (len (snd x)))
   | DStrListS => on_ok (strlist_stream true (one s)) (fun x => strs_digest (fst x) (src_len (snd x)))
   | DBytesC => on_ok (lift (rd_bytes s)) (fun x => len (fst x) :: fst x ++ [len (snd x)])
@@ -469,7 +482,7 @@ Definition run (d : dec) (s : list Z) : A (list Z) :=
 (* the PINNED tree (before the fix: commits), for the regression lemmas *)
 Definition run_pinned (d : dec) (s : list Z) : A (list Z) :=
   match d with
-  | DDns => lift (dns_read false s)
+  | DDns => dns_read false s
   | DStrListC => on_ok (strlist_flat false s) (fun x => strs_digest (fst x) (len (snd x)))
   | DStrListS => on_ok (strlist_stream false (one s)) (fun x => strs_digest (fst x) (src_len (snd x)))
   | DResult r => result_dec false r s
@@ -477,11 +490,11 @@ Definition run_pinned (d : dec) (s : list Z) : A (list Z) :=
   end.
 
 (* allocation classes observed by the harness: TotalAlloc delta of the call
-     0 = at most T(n) = 64 n + 1 MiB,  1 = more than T(n),  2 = the process died (out of memory).
+     0 = at most T(n) = 128 n + 1 MiB,  1 = more than T(n),  2 = the process died (out of memory).
    The measured figure includes justified copies of input bytes and run-time noise, so the model
    figure is compared with a factor-two dead zone around the threshold. *)
 Definition MiB : Z := 1048576.
-Definition thr (n : Z) : Z := 64 * n + MiB.
+Definition thr (n : Z) : Z := 128 * n + MiB.
 Definition alloc_class_ok (a n cls : Z) : bool :=
   if cls =? 0 then a <? 2 * thr n
   else if cls =? 1 then thr n / 2 <? a
